@@ -145,7 +145,8 @@ void mfnd_on(vh::Case& c, const std::string& name) {
   for (int i = 0; i < ntop; ++i) M.insert_with_faces(stc::random_subset(r, uni, (int)uni.size()), 0.0);
   // arbitrary (non-monotone) values, no NaN; sometimes already monotone
   bool monotone_input = r.chance(1, 5);
-  for (auto& kv : M.cx) kv.second = r.chance(1, 30) ? std::numeric_limits<double>::infinity() : 0.25 * (double)r.range(-8, 16);
+  const unsigned inf_den = r.chance(1, 3) ? 6 : 30;
+  for (auto& kv : M.cx) kv.second = r.chance(1, inf_den) ? std::numeric_limits<double>::infinity() : 0.25 * (double)r.range(-8, 16);
   M = compress_labels(M);
   if (monotone_input) M.cx = M.monotone_closure();
   ST st;
@@ -175,12 +176,20 @@ void mfnd_on(vh::Case& c, const std::string& name) {
   if (!stc::full_check(c, st, MC, uni, "op=make_filtration_non_decreasing," + sig, true, "mfnd.")) return;
   if (!check_sequence(c, sequence(st), MC, false, sig + ",after_mfnd")) return;
   // prune at a value: exactly the sublevel complex, return value = something removed
-  double thr = r.chance(1, 10) ? std::numeric_limits<double>::infinity() : 0.25 * (double)r.range(-9, 17);
+  double thr = r.chance(1, 10) ? std::numeric_limits<double>::infinity() : (r.chance(1, 4) ? 1000.0 : 0.25 * (double)r.range(-9, 17));
   if constexpr (ST::Options::contiguous_vertices) {
     // precondition of contiguous_vertices: the surviving vertex set must stay {0..k-1}
     bool gone = false, ok = true;
     for (long v : MC.vertices()) { bool rm = MC.cx.at(Simplex{v}) > thr; if (gone && !rm) ok = false; if (rm) gone = true; }
     if (!ok) { c.count("skip.prune_would_break_contiguity"); return; }
+  }
+  int cache_mode = (int)r.below(3);
+  {  // state of the filtration cache before pruning: full (left by the check above), the documented cache that ignores
+     // infinite values, or empty
+    if (cache_mode == 1) { st.initialize_filtration(true); c.count("state.cache_ignoring_infinite_before_prune"); c.log("initialize_filtration(true)"); }
+    else if (cache_mode == 2) st.clear_filtration();
+    bool has_inf = false; for (auto& kv : MC.cx) if (std::isinf(kv.second)) has_inf = true;
+    if (cache_mode == 1 && has_inf) c.count("state.cache_ignoring_infinite_with_infinite_simplices");
   }
   c.log("prune_above_filtration " + vh::str(thr));
   bool pr = st.prune_above_filtration((FV)thr);
@@ -189,7 +198,8 @@ void mfnd_on(vh::Case& c, const std::string& name) {
   c.count("prune." + std::string(pe ? "removes" : "no_change"));
   if (pr != pe) { c.violation("prune.return_value", psig, "prune_above_filtration(" + vh::str(thr) + ") returned " + vh::str(pr) + " expected " + vh::str(pe)); return; }
   if (!stc::full_check(c, st, MC, uni, "op=prune_above_filtration," + psig, true, "prune.")) return;
-  if (!check_sequence(c, sequence(st), MC, false, psig + ",after_prune")) return;
+  // a prune that removes nothing keeps the cache it found (possibly the one ignoring infinite values); otherwise it is rebuilt
+  if (!check_sequence(c, sequence(st), MC, cache_mode == 1 && !pe, psig + ",after_prune")) return;
   if (changed_expected) { std::string h; for (auto& kv : M.cx) h += oracle::show(kv.first) + vh::str(kv.second); c.nontrivial(vh::hash_str(h + name)); }
 }
 
